@@ -839,6 +839,22 @@ pub fn generate(kind: &str, tier: &str, seed: u64, shard: u64, nshards: u64, pat
     let share = |n: usize| -> usize { (n as u64 / nshards + if shard < n as u64 % nshards { 1 } else { 0 }) as usize };
     match kind {
         "ser_all" => {
+            // directed: every message stream id 0..70 (and the usual boundaries) with every common type, one run
+            if shard == 0 {
+                let mut run = Run::new(&t, "all", true);
+                let mut steps: Vec<SerStep> = Vec::new();
+                let mut ids: Vec<u32> = (0..=70).collect();
+                ids.extend_from_slice(&[127, 128, 255, 256, 257, 1023, 1024, 65535, 65536, 0xFFFFFF, 0x1000000, 0x7FFFFFFF, 0x80000000, 0xFFFFFFFF]);
+                for (k, id) in ids.iter().enumerate() {
+                    for ty in [9u8, 8, 18, 20].iter() {
+                        steps.push(SerStep { m: M { ty: *ty, msid: *id, ts: 40 * k as u32, data: vec![*ty, k as u8, 3, 4, 5] }, fu: false, cd: false, setcs: None });
+                    }
+                }
+                msgs += steps.len();
+                run_serializer(&mut run, &steps, &mut |_| false);
+                run.finish(&mut t, &mut c0, false);
+                runs += 1;
+            }
             // C07 + C08: library packets through the reference receiver, every drop subset
             for _ in 0..share(pl.ser_all) {
                 let mut run = Run::new(&t, "all", true);
